@@ -182,6 +182,20 @@ def core_errors_after_all_siblings(req):
     _reset()
     if bad() != "typeerror":
         return fail("a yielded non-future must be reported to the task as TypeError")
+    for junk in (0, False, "", 0.0, 5, "x", object()):
+        for wrap in (lambda j: j, lambda j: [child.asynq(0, "ok"), j], lambda j: (j, child.asynq(0, "ok")), lambda j: {"a": j}):
+            @A()
+            def yields_junk():
+                try:
+                    r = yield wrap(junk)
+                except TypeError:
+                    return "typeerror"
+                return ("no error", r)
+            _reset()
+            got = yields_junk()
+            if got != "typeerror":
+                return fail("a yielded object that is not a future (nor None) must be reported to the task as TypeError",
+                            yielded=repr(junk), got=repr(got))
     return None
 
 
@@ -209,6 +223,8 @@ def core_start_order_and_once(req):
         "nested": lambda: (t.asynq("a"), [t.asynq("b"), t.asynq("c")], (t.asynq("d"), t.asynq("e"))),
         "nested_pair_in_triple": lambda: [(t.asynq("a"), t.asynq("b")), t.asynq("c"), t.asynq("d")],
         "single": lambda: (t.asynq("a"),),
+        "repeated": lambda: (lambda a: [a, t.asynq("b"), t.asynq("c"), a])(t.asynq("a")),
+        "repeated_nested": lambda: (lambda a: (a, [t.asynq("b"), a], t.asynq("c")))(t.asynq("a")),
     }
     for name, mk in shapes.items():
         _reset()
@@ -298,6 +314,40 @@ def core_maximal_batching(req):
     def chain5():
         yield chain.asynq(7, 5)
     programs["chain5"] = (chain5, 5, None)
+
+    @A()
+    def failing_dep():
+        raise KeyError("dep")
+        yield
+
+    @A()
+    def recovers_then_requests():
+        try:
+            yield failing_dep.asynq()
+        except KeyError:
+            pass
+        r = yield get.asynq(2)
+        return r
+
+    @A()
+    def recovery_next_to_pending_sibling():
+        r = yield [get.asynq(1), recovers_then_requests.asynq()]
+        return r
+    programs["recovery_next_to_pending_sibling"] = (recovery_next_to_pending_sibling, 1, [[1, 2]])
+
+    @A()
+    def const_then_request():
+        from asynq import ConstFuture
+        a = yield ConstFuture(5)
+        b = yield None
+        r = yield get.asynq(3)
+        return r
+
+    @A()
+    def immediate_steps_next_to_pending_sibling():
+        r = yield [get.asynq(1), const_then_request.asynq(), get.asynq(2)]
+        return r
+    programs["immediate_steps_next_to_pending_sibling"] = (immediate_steps_next_to_pending_sibling, 1, [[1, 2, 3]])
 
     @A()
     def sync_inside():
@@ -614,6 +664,102 @@ def _state(log):
     return st
 
 
+@scenario(["async_task.AsyncTask._resume_contexts", "async_task.AsyncTask._pause_contexts"], ["C06", "C07"])
+def core_context_hook_failures(req):
+    """Nested contexts where one context's resume() (or pause()) raises at a later activation: every OTHER context of the task still sees strictly alternating resume/pause, resumed in entry order and paused in reverse order."""
+    from asynq import asynq as A, batching, contexts
+    for failing, hook, at in [("outer", "resume", 2), ("mid", "resume", 2), ("inner", "resume", 2), ("outer", "resume", 3)]:
+        log = []
+
+        class C(contexts.AsyncContext):
+            def __init__(self, name):
+                self.name = name
+                self.n = {"resume": 0, "pause": 0}
+
+            def resume(self):
+                self.n["resume"] += 1
+                log.append(("resume", self.name))
+                if self.name == failing and hook == "resume" and self.n["resume"] == at:
+                    raise ValueError("resume failed")
+
+            def pause(self):
+                self.n["pause"] += 1
+                log.append(("pause", self.name))
+
+        @A()
+        def t():
+            with C("outer"):
+                with C("mid"):
+                    with C("inner"):
+                        yield batching.DebugBatchItem("k", 1)
+                        yield batching.DebugBatchItem("k", 2)
+            return 1
+        _reset()
+        try:
+            t()
+        except ValueError:
+            pass
+        # contexts other than the failing one must alternate strictly
+        for name in ("outer", "mid", "inner"):
+            if name == failing:
+                continue
+            evs = [e for e, n in log if n == name]
+            for a, b in zip(evs, evs[1:]):
+                if a == b:
+                    return fail("resume/pause of a context do not alternate when another context's hook fails",
+                                failing_context=failing, hook=hook, at_activation=at, context=name, its_events=evs)
+            if evs and (evs[0] != "resume" or evs[-1] != "pause"):
+                return fail("a context must start with resume and end with pause", context=name, its_events=evs, failing_context=failing)
+    return None
+
+
+@scenario(["scoped_value."], ["C07"])
+def scoped_value_unit(req):
+    """Unit replay of the override contexts' contract: resume() saves the value current AT RESUME TIME and installs the override, pause() restores what resume saved; repeated resume/pause cycles under changing outer values; get/set/__call__ agree."""
+    from asynq.scoped_value import AsyncScopedValue, async_override
+    sv = AsyncScopedValue("d")
+    if sv.get() != "d" or sv() != "d":
+        return fail("get/__call__ of a fresh scoped value")
+    sv.set("x")
+    if sv.get() != "x":
+        return fail("set/get")
+    ctx = sv.override("ov")
+    for outer in ("a", "b", "c"):
+        sv.set(outer)                 # the enclosing value differs at each activation
+        ctx.resume()
+        if sv.get() != "ov":
+            return fail("resume() must install the override", read=repr(sv.get()))
+        ctx.pause()
+        if sv.get() != outer:
+            return fail("pause() must restore the value that was current when resume() ran", expected=outer, got=repr(sv.get()))
+
+    class O:
+        attr = "orig"
+    o = O()
+    pc = async_override(o, "attr", "ov")
+    for outer in ("a", "b"):
+        o.attr = outer
+        pc.resume()
+        if o.attr != "ov":
+            return fail("async_override.resume() must install the override")
+        pc.pause()
+        if o.attr != outer:
+            return fail("async_override.pause() must restore the value current at resume time", expected=outer, got=repr(o.attr))
+    # with-statement use outside any task
+    sv.set("base")
+    with sv.override("w1"):
+        if sv.get() != "w1":
+            return fail("override not visible inside the with block")
+        with sv.override("w2"):
+            if sv() != "w2":
+                return fail("inner override not visible")
+        if sv.get() != "w1":
+            return fail("inner override not undone")
+    if sv.get() != "base":
+        return fail("override not undone after the with block", got=repr(sv.get()))
+    return None
+
+
 @scenario(["contexts.NonAsyncContext", "async_task.AsyncTask._pause_contexts"], ["C06"])
 def core_non_async_context(req):
     """A NonAsyncContext fails the task with AssertionError iff the task has to be suspended for a flush inside it."""
@@ -750,6 +896,30 @@ def core_active_task_and_clean(req):
             return r
         if len(scheduler.get_scheduler()._batches):
             return fail("batches retained after the runaway guard")
+
+        @A()
+        def mixed(n=0):
+            # every level waits on a batch item (scheduled at once) and on one more level: never bottoms out
+            yield batching.DebugBatchItem("rk", 1000 + n), mixed.asynq(n + 1)
+        flushed = []
+        s = scheduler.get_scheduler()
+        try:
+            mixed()
+            return fail("runaway guard did not fire (mixed)")
+        except RuntimeError:
+            pass
+        r = clean("the runaway-recursion RuntimeError with batches already scheduled")
+        if r:
+            return r
+        s = scheduler.get_scheduler()
+        if len(s._batches):
+            return fail("the scheduler retained batches of the aborted computation after the runaway guard", batches=len(s._batches))
+        s.on_before_batch_flush.subscribe(lambda b: flushed.append(sorted(i._result for i in b.items)))
+        debug.options.MAX_TASK_STACK_SIZE = old
+        _ = inner(7)
+        debug.options.MAX_TASK_STACK_SIZE = 50
+        if any(x != [7] for x in flushed):
+            return fail("a batch of the aborted computation was flushed during the next computation", flushed=repr(flushed))
     finally:
         debug.options.MAX_TASK_STACK_SIZE = old
         debug.options.DUMP_PRE_ERROR_STATE = True
